@@ -186,12 +186,15 @@ fn inner(c: &TimeoutCase) -> Result<CaseReport, Stop> {
                         std::thread::sleep(Duration::from_millis(300));
                         drop(c);
                     });
+                    sc::verif::log_begin();
                     let t1 = Instant::now();
                     let r2 = no_panic(opname, || match &mut b.l {
                         TinyListener::U(l) => UnixListener::accept_with_timeout(l, d).map(|_s| true),
                         TinyListener::T(l) => l.accept_with_timeout(d).map(|_s| true),
                     });
                     let el2 = t1.elapsed();
+                    let log2 = sc::verif::log_end();
+                    let accepted_by_kernel = log2.iter().any(|k| (k.nr == sc::nr::ACCEPT4 || k.nr == sc::nr::ACCEPT) && k.executed && (k.ret as isize) >= 0);
                     if let Some(wait) = hw.finish() {
                         return Err(stop_fail(format!("{opname}|never-timed-out|second call on the same listener"), format!("the second {opname}({d:?}) on a listener whose first timed accept had timed out was still parked in {wait} {el2:?} after the call")));
                     }
@@ -203,6 +206,7 @@ fn inner(c: &TimeoutCase) -> Result<CaseReport, Stop> {
                         }
                         Err(e) if is_resource(&ek(&e)) => return Err(Stop::Inconclusive(format!("{opname}: {e}"))),
                         Err(e) => return Err(stop_fail(format!("{opname}|{}|second call on the same listener", ek_name(&ek(&e))), format!("the second {opname}({d:?}) with nobody connecting returned {e}"))),
+                        Ok(_) if accepted_by_kernel => return Err(Stop::Inconclusive(format!("{opname}: accept(2) itself returned a connection although this case connects nobody: a foreign client"))),
                         Ok(_) => return Err(stop_fail(format!("{opname}|completed|silent peer"), format!("the second {opname}({d:?}) completed although nobody connected"))),
                     }
                     rep.class("second-timed-call-on-the-same-object");
@@ -370,9 +374,12 @@ fn inner(c: &TimeoutCase) -> Result<CaseReport, Stop> {
                     let hw = HangWatch::start(d + Duration::from_millis(1500), || true, move || unsafe {
                         libc::write(pfd, b"!".as_ptr().cast(), 1);
                     });
+                    sc::verif::log_begin();
                     let t1 = Instant::now();
-                    let r2 = no_panic(opname, || s.read_with_timeout(&mut buf, d).map(|_n| true));
+                    let r2 = no_panic(opname, || s.read_with_timeout(&mut buf, d));
                     let el2 = t1.elapsed();
+                    let log2 = sc::verif::log_end();
+                    let read_by_kernel = log2.iter().rev().find(|k| k.nr == sc::nr::READ && k.executed).map(|k| k.ret as isize);
                     if let Some(wait) = hw.finish() {
                         return Err(stop_fail(format!("{opname}|never-timed-out|second call on the same stream"), format!("the second {opname}({d:?}) on a stream (from {origin}) whose first timed read had timed out was still parked in {wait} {el2:?} after the call")));
                     }
@@ -384,6 +391,7 @@ fn inner(c: &TimeoutCase) -> Result<CaseReport, Stop> {
                         }
                         Err(e) if is_resource(&ek(&e)) => return Err(Stop::Inconclusive(format!("{opname}: {e}"))),
                         Err(e) => return Err(stop_fail(format!("{opname}|{}|second call on the same stream", ek_name(&ek(&e))), format!("the second {opname}({d:?}) against the silent peer returned {e}"))),
+                        Ok(n) if read_by_kernel == Some(n as isize) => return Err(Stop::Inconclusive(format!("{opname}: read(2) itself returned {n} on a connection whose peer (of this case) never wrote: somebody else acted on it"))),
                         Ok(_) => return Err(stop_fail(format!("{opname}|completed|silent peer"), format!("the second {opname}({d:?}) completed although the peer never acted"))),
                     }
                     rep.class("second-timed-call-on-the-same-object");
